@@ -61,6 +61,8 @@ struct Built {
     /// (issued, dropped-counter)
     tokens: Vec<(u32, Rc<Cell<u32>>)>,
     writers: Vec<Box<dyn Fn(i64)>>,
+    /// nodes that lost their last owner before the next stabilise: must be dead after it
+    after_round: Rc<RefCell<Vec<Box<dyn Fn() -> usize>>>>,
 }
 
 fn probe<T: 'static>(b: &mut Built, i: &Incr<T>) {
@@ -95,7 +97,7 @@ fn join<T: Value>(incr: &Incr<Incr<T>>) -> Incr<T> {
 }
 
 fn build(state: &IncrState, shape: u8) -> Built {
-    let mut b = Built { handles: vec![], probes: vec![], tokens: vec![], writers: vec![] };
+    let mut b = Built { handles: vec![], probes: vec![], tokens: vec![], writers: vec![], after_round: Rc::new(RefCell::new(vec![])) };
     match shape % N_SHAPES {
         0 => {
             // Var<Var<i64>>
@@ -124,11 +126,22 @@ fn build(state: &IncrState, shape: u8) -> Built {
             let a2 = a.clone();
             b.writers.push(Box::new(move |v| a2.set(v)));
             let (c2, st) = (c.clone(), state.weak());
+            let ar = b.after_round.clone();
+            let first = Cell::new(true);
             b.writers.push(Box::new(move |v| {
-                // replace the middle var: the old one must be released
+                // replace the middle var: the old one (and its inner var) must be released by the
+                // next stabilise, unless it is the original one that the driver still holds
+                let old_mid: Var<Var<i64>> = c2.get();
                 let fresh_inner = st.var(v);
                 let fresh_mid = st.var(fresh_inner);
                 c2.set(fresh_mid);
+                if !first.replace(false) {
+                    let w1 = old_mid.watch().weak();
+                    let w2 = old_mid.get().watch().weak();
+                    ar.borrow_mut().push(Box::new(move || w1.strong_count()));
+                    ar.borrow_mut().push(Box::new(move || w2.strong_count()));
+                }
+                drop(old_mid);
             }));
             b.handles.push(Box::new(o));
             b.handles.push(Box::new(j));
@@ -373,6 +386,16 @@ pub fn run_on_this_thread(plan: &Plan, keep_trace: bool) -> RunOutput {
                 XAct::Stabilise => {
                     state.stabilise();
                     rounds += 1;
+                    let pending: Vec<Box<dyn Fn() -> usize>> = built.after_round.borrow_mut().drain(..).collect();
+                    let alive = pending.iter().filter(|p| p() > 0).count();
+                    if alive > 0 {
+                        viol.push(Violation {
+                            property: "C12",
+                            rule: "replaced-value-not-released",
+                            at: log.len(),
+                            detail: format!("shape {}: {} nodes of a variable that was replaced (no handle left) are still alive after the next stabilise", cfg.shape % N_SHAPES, alive),
+                        });
+                    }
                 }
                 XAct::Write { v } => {
                     if !built.writers.is_empty() {
